@@ -45,7 +45,7 @@ func planOn(in *Input, changes []schema.Change) string {
 	if in.Indent != "" {
 		opts = append(opts, func(o *migrate.PlanOptions) { o.Indent = in.Indent })
 	}
-	p, err := apis[in.Dialect].plan.PlanChanges(context.Background(), "c20", changes, opts...)
+	p, err := in.api().plan.PlanChanges(context.Background(), "c20", changes, opts...)
 	if err != nil {
 		return "error: " + err.Error()
 	}
@@ -66,7 +66,7 @@ func newPair(in *Input) *samePair {
 }
 
 func (p *samePair) diff() ([]schema.Change, string) {
-	a := apis[p.in.Dialect]
+	a := p.in.api()
 	var ch []schema.Change
 	var err error
 	if p.in.Realm {
@@ -82,7 +82,7 @@ func (p *samePair) diff() ([]schema.Change, string) {
 
 // hcl marshals the current and the desired graph of the pair.
 func (p *samePair) hcl() (from, to string) {
-	a := apis[p.in.Dialect]
+	a := p.in.api()
 	m := func(v any) string {
 		b, err := a.marshal(v)
 		if err != nil {
@@ -98,7 +98,7 @@ func (p *samePair) hcl() (from, to string) {
 
 // oneSame runs the leg on one input. digest identifies the observed behaviour.
 func oneSame(in *Input) (finds []sameFinding, digest string, stmts int) {
-	d := string(in.Dialect)
+	d := dkey(in.Dialect, in.Flavour)
 	add := func(key, what string, det map[string]any) {
 		finds = append(finds, sameFinding{"same|" + d + "|" + key, in.Name + ": " + what, det})
 	}
@@ -177,7 +177,7 @@ func runSame(c *rt.Ctx, ins []*Input) {
 		w.Begin(cs)
 		finds, digest, stmts := oneSame(in)
 		c.Eval(digest, stmts > 0)
-		c.Count("same:input:"+string(in.Dialect)+":"+inputClass(in.Name), 1)
+		c.Count("same:input:"+dkey(in.Dialect, in.Flavour)+":"+inputClass(in.Name), 1)
 		c.Count("same:plan-calls-on-same-objects", 2*sameR)
 		c.Count("same:planned-statements", int64(stmts))
 		for _, f := range finds {
